@@ -872,9 +872,10 @@ class Step(Node):
         `duration`, when `None`, deliberately leaves the recycled step's existing duration
         (its previous measurement, if any) untouched, unlike a brand-new step's default.
 
-        `_holding` is always reset to 0: a recycled step cannot still be inside a `hold()`
-        block from a previous run, since that block would have released it (or failed)
-        before the step could be recycled.
+        `_holding` is left alone: a detached step keeps running (see `_detach_created_steps`),
+        so it can be recycled while its command is still inside a `hold()` block,
+        and the steps it declared there must stay held until that block releases them.
+        For any state other than RUNNING the `step_reset_holding` trigger has already cleared it.
 
         A FAILED step is the one state that is not carried over: it is made PENDING so the
         recycled step is retried. A failed step is never skippable anyway (it has no stored
@@ -882,7 +883,7 @@ class Step(Node):
         within the same build, while `report_unbuilt` still counts it as a failure.
         """
         self.db.execute(
-            "UPDATE step SET need = ?, shell = ?, _holding = 0 WHERE node = ?",
+            "UPDATE step SET need = ?, shell = ? WHERE node = ?",
             (need.value, int(shell), self.i),
         )
         state = self.get_state()
